@@ -22,7 +22,7 @@ def gen(rng, count, sizes):
     """groups: (multi-bunch case, [single-bunch cases]) for kick / rf / drift / fp"""
     groups = []
     for k in range(count):
-        kind = ["kick", "kick", "rf", "drift", "fp"][k % 5]
+        kind = ["kick", "kick", "rf", "drift", "fp", "ident"][k % 6]
         n = rng.choice(sizes)
         nb = rng.choice([2, 3, 5]) if n <= 17 else rng.choice([2, 3])
         it = rng.choice([1, 2, 3, 4])
@@ -56,6 +56,12 @@ def gen(rng, count, sizes):
             for b in range(nb):
                 singles.append(hd % ("%s_%d" % (gid, b), n, it, 1, "lin" if lin else "sin", ex(e)) +
                                "data %s\nrun\n" % ex(data[b * n * n:(b + 1) * n * n]))
+        elif kind == "ident":
+            # the identity map stands in for the wake kick without impedance and for the Fokker-Planck step without damping
+            hd = "ident %s %d %d\n"
+            multi = hd % (gid, n, nb) + "data %s\nrun\n" % ex(data)
+            for b in range(nb):
+                singles.append(hd % ("%s_%d" % (gid, b), n, 1) + "data %s\nrun\n" % ex(data[b * n * n:(b + 1) * n * n]))
         elif kind == "drift":
             steps = rng.choice([50, 300, 1000])
             angle = f32(2 * math.pi / steps)
